@@ -1,5 +1,6 @@
 import Proofs.BanditAgent
 import Proofs.BanditGenEq
+import Proofs.BanditWireGenEq
 
 /-!
 # C19 — neural bandits keep an exact inverse of their regularised Gram matrix
@@ -28,6 +29,13 @@ Source translation: `harness/py2lean_bandit.py` translates the tensor expression
 shapes inferred from the AST); `Proofs/BanditGenEq.lean` proves the generated definitions equal to `sigma0 .paper`,
 `bonus`, `smUpdate`, … under the shape invariant; the `C19_source_translation_*` theorems below restate the
 property over the generated definitions, so they are re-checked against what the code says now.
+
+Wiring: `harness/py2lean_banditwire.py` translates, per function and in source order, the statements of the two classes,
+of `EvolvableAlgorithm.{mutation_hook, clone, load_checkpoint, load}` and of `Mutations.mutation` + the five mutation
+methods that touch `actor` / `exp_layer` / `numel` / `sigma_inv` / the hook registry into `Gen/BanditWireGen.lean`;
+`Proofs/BanditWireGenEq.lean` runs these lists on `Wire` and proves them equal to the model's ops; the
+`C19_source_translation_wiring_*` theorems state the size clause, the re-initialisation table and the inverse
+invariant over histories of the GENERATED transitions.
 -/
 open Matrix
 
@@ -409,5 +417,127 @@ example : genRun BanditGen.UCB.update (BanditGen.UCB.init 2 [⟨2, true⟩, ⟨5
 example : actRun (BanditGen.UCB.act id 1 2) (BanditGen.UCB.init 2 [⟨2, true⟩]).2
     [([[1], [0], [0]], [[0, 0], [1, 1/2], [0, 3]], none), ([[0], [0], [0]], [[0, 0], [1, 1/2], [0, 3]], some [1, 1, 0])]
     = ([[0, 3], [1, 1/2]], [[45/134, -1/67], [-1/67, 6/67]]) := by decide +kernel
+
+
+/-! ### the wiring around the matrix, over the event lists generated from the source text
+
+`BanditWireGen.*` (from `harness/py2lean_banditwire.py`) lists, per function and in source order, the statements of
+`NeuralUCB/NeuralTS.{__init__, init_params, get_action, learn}`, `EvolvableAlgorithm.{mutation_hook, clone,
+load_checkpoint, load}` and `Mutations.{mutation, the five mutation methods}` that touch `actor`, `exp_layer`,
+`numel`, `sigma_inv`, the hook registry.  `Proofs/BanditWireGenEq.lean` runs them on `Wire` (the bookkeeping agent
+plus the identity of the current output layer and of what `exp_layer` is bound to).  A history starts with the
+translated constructor and continues with any ops (`WOp`): decide, learn, `Mutations.mutation` of any kind with any
+resulting output-layer size, clone, save + `load`, save + `load_checkpoint` into another agent of the class. -/
+section source_translation_wiring
+set_option linter.unnecessarySeqFocus false
+open BanditWireGen
+
+/-- every generated list runs to the op of the hand-written wiring model (no event without meaning: flag `false`) -/
+theorem C19_source_translation_wiring_equalities (c : Cls) (w t : Wire) (g : Vec) (k : Kind) (n' n0 : Nat)
+    (q : Option Rat) (sem : Sem) (lamb : Rat) (id n next : Nat) (hw : w.hooked = true) (ht : t.hooked = true) :
+    runCtor c sem lamb id n next = ({ Wire.mk0 sem lamb n id with next := next }, false) ∧
+    runInit c (w, false) = (w.initParams, false) ∧ runHook c (w, false) = (w.hook, false) ∧
+    genUpdate c w g = (w.update g, false) ∧ genLearn c w = (w.learn, false) ∧
+    genMutate c w k n' q = (w.mutate k n' q, false) ∧ genClone c w n0 = (w.clone, false) ∧
+    genLoad c w n0 = (w.reload, false) ∧ genLoadCheckpoint c t w = (t.loadFrom w, false) :=
+  ⟨gen_ctor_eq .., gen_initParams_eq .., gen_hook_eq .., gen_update_eq .., gen_learn_eq .., gen_mutate_eq c w k n' q hw,
+   gen_clone_eq .., gen_load_eq c w n0 hw, gen_loadCheckpoint_eq c t w ht⟩
+
+/-- the translated constructor leaves the agent bound to its own output layer with the hook registered -/
+theorem C19_source_translation_wiring_ctor (c : Cls) (sem : Sem) (lamb : Rat) (n : Nat) :
+    (runCtor c sem lamb 1 n 2).1 = Wire.mk0 sem lamb n 1 ∧ (Wire.mk0 sem lamb n 1).Inv sem ∧
+    (Wire.mk0 sem lamb n 1).Bound := by
+  refine ⟨by rw [gen_ctor_eq]; rfl, Wire.inv_mk0 .., rfl, rfl, rfl⟩
+
+/-- **(i) invariant, over the generated transitions**: after the translated constructor and ANY sequence of ops
+    run from the generated lists, no statement was left without meaning, `exp_layer` is the output layer of the
+    CURRENT actor, `numel` is its parameter count and `sigma_inv` is `numel × numel` -/
+theorem C19_source_translation_wiring_invariant (c : Cls) (sem : Sem) (lamb : Rat) (n n0 : Nat) (ops : List WOp)
+    (hv : ∀ op ∈ ops, op.valid sem) :
+    let r := wireRun c n0 (runCtor c sem lamb 1 n 2).1 ops
+    r.2 = false ∧ r.1.hooked = true ∧ r.1.exp = r.1.layer ∧ r.1.expN = r.1.a.outNumel ∧
+    r.1.a.numel = r.1.a.outNumel ∧ WellShaped r.1.a.numel r.1.a.sigmaInv := by
+  intro r
+  obtain ⟨h0, hi, hb⟩ := C19_source_translation_wiring_ctor c sem lamb n
+  obtain ⟨he, hinv⟩ := wire_run_eq c n0 ops hv hi
+  have hr : r = ((Wire.mk0 sem lamb n 1).run ops, false) := by simp only [r, h0, he]
+  have hbound := Wire.bound_run ops hv hi hb
+  have ha := Wire.run_a ops hv hi
+  have hs : ((Wire.mk0 sem lamb n 1).run ops).a.Sized := by
+    rw [ha]; exact Agent.sized_run (Agent.sized_initParams _) _
+  rw [hr]
+  exact ⟨rfl, hinv.1, hbound.1, hbound.2.1, hbound.2.2, hs.2⟩
+
+/-- **(ii) which ops re-initialise, as coded**: `Mutations.mutation` re-initialises the matrix whatever kind it
+    drew — also `no_mutation` and an RL-hyper-parameter mutation, because `mutation` calls `mutation_hook()`
+    unconditionally — to `sigma0` of the CURRENT `lamb` at the NEW size with an empty history; a decision applies
+    one Sherman–Morrison step; `learn` changes nothing; `clone`, `load` and `load_checkpoint` hand the child / the
+    loaded agent exactly the parent's / the saved bookkeeping state (matrix and history carried) -/
+theorem C19_source_translation_wiring_reinit (c : Cls) (sem : Sem) (w t : Wire) (hw : w.Inv sem) (g : Vec) (k : Kind)
+    (n' n0 : Nat) (q : Option Rat) (ht : (WOp.loadInto t).valid sem) :
+    (let m := (genMutate c w k n' q).1
+     m.a.hist = [] ∧ m.a.sigmaInv = sigma0 sem m.a.lamb m.a.outNumel ∧ m.a.lamb0 = m.a.lamb ∧
+     m.a.outNumel = (if k.setsNet then n' else w.a.outNumel)) ∧
+    (genUpdate c w g).1.a = w.a.update g ∧ (genLearn c w).1 = w ∧
+    (genClone c w n0).1.a = w.a ∧ (genLoad c w n0).1.a = w.a ∧ (genLoadCheckpoint c t w).1.a = w.a := by
+  obtain ⟨h1, h2⟩ := hw
+  refine ⟨?_, ?_, ?_, ?_, ?_, ?_⟩
+  · rw [gen_mutate_eq c w k n' q h1]
+    cases k <;> cases q <;>
+    simp [Wire.mutate, Kind.setsNet, Wire.hook, Wire.setNet, Wire.initParams, h1, Agent.initParams, Agent.setArch,
+      Agent.setLamb, h2] <;> (try split) <;> simp [h2]
+  · rw [gen_update_eq]; rfl
+  · rw [gen_learn_eq]; rfl
+  · rw [gen_clone_eq]; exact Agent.clone_eq _
+  · rw [gen_load_eq c w n0 h1]; exact Agent.reload_eq _
+  · rw [gen_loadCheckpoint_eq c t w ht.1]; exact Agent.loadFrom_eq _ _ (ht.2.trans h2.symm)
+
+/-- **(iii) composed with the inverse invariant**: after the translated constructor and any sequence of ops run
+    from the generated lists, `sigma_inv` is the two-sided inverse of `Z₀ + Σ g gᵀ` over the decisions since the last
+    re-initialisation (`gram`: `Z₀` from the `lamb` read at that re-initialisation, at the size of the current
+    output layer), on the executable lists and as Mathlib's matrix inverse -/
+theorem C19_source_translation_wiring_inverse (c : Cls) (sem : Sem) (lamb : Rat) (hl : 0 < lamb) (n n0 : Nat)
+    (ops : List WOp) (hv : ∀ op ∈ ops, op.valid sem) :
+    let a := (wireRun c n0 (runCtor c sem lamb 1 n 2).1 ops).1.a
+    a.numel = a.outNumel ∧
+    matMul a.numel a.gram a.sigmaInv = identity a.numel ∧ matMul a.numel a.sigmaInv a.gram = identity a.numel ∧
+    toMatrix a.numel a.sigmaInv = (toMatrix a.numel a.gram)⁻¹ := by
+  intro a
+  obtain ⟨h0, hi, _⟩ := C19_source_translation_wiring_ctor c sem lamb n
+  obtain ⟨he, _⟩ := wire_run_eq c n0 ops hv hi
+  have ha : a = (Agent.mk0 sem lamb n).run (ops.flatMap WOp.erase) := by
+    simp only [a, h0, he]; exact Wire.run_a ops hv hi
+  rw [ha]
+  exact ⟨(C19_size_matches_output_layer sem lamb n _).1, C19_inverse_invariant sem lamb hl n _⟩
+
+/-- the source order matters — three repaired / possible orders, decided on the generated lists with one statement
+    changed: `load` without its hook call, `load` without the `is_network_submodule` guard (the state before the fix
+    of `C19-exp-layer-stale-after-load`: `exp_layer` becomes the pickled copy), `clone` running the hook on the
+    parent instead of the new agent (the child stays bound to the constructor's network, the parent loses its
+    matrix) — each leaves `exp_layer` off the current output layer; the lists as generated do not -/
+theorem C19_source_translation_wiring_order_witness :
+    let w := (Wire.mk0 .paper 1 2 1).update [1, 1]
+    let noHook := Base.load.filter (· != .call "self" "mutation_hook")
+    let noGuard := Base.load.filter (· != .skipWhen "is_network_submodule")
+    let wrongObj := Base.clone.map (fun e => if e = .call "clone" "mutation_hook" then .call "self" "mutation_hook" else e)
+    (loadWith Base.load .ucb w 3).1.Bound ∧ (cloneWith Base.clone .ucb w 3).1.Bound ∧
+    noHook.length + 1 = Base.load.length ∧ ¬ (loadWith noHook .ucb w 3).1.Bound ∧
+    noGuard.length + 1 = Base.load.length ∧ ¬ (loadWith noGuard .ucb w 3).1.Bound ∧
+    wrongObj ≠ Base.clone ∧ ¬ (cloneWith wrongObj .ucb w 3).1.Bound := by
+  decide +kernel
+
+end source_translation_wiring
+
+/-- the generated lists on the history of `demo` (decide, architecture mutation 2 → 3, decide, clone, reload,
+    decide): every statement had a meaning, the bookkeeping state is `demo`, `exp_layer` is the current layer -/
+def wireDemo : WB := wireRun .ucb 5 (runCtor .ucb .code (1/2) 1 2 2).1
+  [.update [1, 0], .mutate .arch 3 none, .update [1, 1, 0], .clone, .reload, .update [0, 0, 2]]
+example : wireDemo.2 = false ∧ wireDemo.1.a = demo ∧ wireDemo.1.Bound ∧ wireDemo.1.layer = 6 := by decide +kernel
+/-- `no_mutation` and an rl_hp mutation of `lamb` re-initialise as well (the hook call in `mutation` is unconditional) -/
+example : (genMutate .ts ((Wire.mk0 .paper 2 1 1).update [1]) .none 9 none).1.a.sigmaInv = [[1/2]] ∧
+    (genMutate .ts ((Wire.mk0 .paper 2 1 1).update [1]) .rlhp 9 (some 4)).1.a.sigmaInv = [[1/4]] ∧
+    ((Wire.mk0 .paper 2 1 1).update [1]).a.sigmaInv = [[1/3]] := by decide +kernel
+/-- the hypotheses of the history theorems are satisfiable: a `load_checkpoint` into a constructed agent is valid -/
+example : (WOp.loadInto (Wire.mk0 .paper 3 4 1)).valid .paper := ⟨rfl, rfl⟩
 
 end Bandit
